@@ -865,35 +865,44 @@ func Extract(a *Term, hi, lo int) *Term {
 			return Extract(in, hi, lo)
 		}
 	case KAnd, KOr, KXor:
-		args := make([]*Term, len(a.Args))
-		for i, x := range a.Args {
-			args[i] = Extract(x, hi, lo)
+		// push down only when it cannot cascade (every argument extracts structurally)
+		if allCheap(a.Args) {
+			args := make([]*Term, len(a.Args))
+			for i, x := range a.Args {
+				args[i] = Extract(x, hi, lo)
+			}
+			return bitN(a.K, args)
 		}
-		return bitN(a.K, args)
 	case KNot:
-		return Not(Extract(a.Args[0], hi, lo))
+		if allCheap(a.Args) {
+			return Not(Extract(a.Args[0], hi, lo))
+		}
 	case KIte:
 		if a.Args[1].IsConst() || a.Args[2].IsConst() {
 			return Ite(a.Args[0], Extract(a.Args[1], hi, lo), Extract(a.Args[2], hi, lo))
 		}
 	case KAdd:
-		if lo == 0 {
+		if lo == 0 && allCheap(a.Args) {
 			args := make([]*Term, len(a.Args))
 			for i, x := range a.Args {
 				args[i] = Extract(x, hi, 0)
 			}
 			return AddN(args...)
 		}
-	case KNeg:
-		if lo == 0 {
-			return Neg(Extract(a.Args[0], hi, 0))
-		}
-	case KMul:
-		if lo == 0 {
-			return Mul(Extract(a.Args[0], hi, 0), Extract(a.Args[1], hi, 0))
-		}
 	}
 	return mk(&Term{K: KExtract, W: nw, Args: []*Term{a}, Hi: hi, Lo: lo})
+}
+
+// allCheap: every term is a constant, variable, concat or extract (extraction does not cascade).
+func allCheap(ts []*Term) bool {
+	for _, t := range ts {
+		switch t.K {
+		case KConst, KVar, KConcat, KExtract:
+		default:
+			return false
+		}
+	}
+	return true
 }
 
 func Concat(parts ...*Term) *Term {
